@@ -58,6 +58,15 @@ static NI void * worker(void * p) {
 		j->out = d->str; d_string_free(d, false);
 		return NULL;
 	}
+	if (j->fmt == FORMAT_EPUB || j->fmt == FORMAT_ODT || j->fmt == FORMAT_ITMZ || j->fmt == FORMAT_TEXTBUNDLE_COMPRESSED) {
+		/* packaged formats: the package documents (navigation, manifest, map) are only written by the data entry point */
+		measuring = 1;
+		DString * r = mmd_string_convert_to_data(j->src, j->ext, j->fmt, 0, NULL);
+		measuring = 0;
+		j->out = r ? strdup("package") : NULL;
+		if (r) d_string_free(r, true);
+		return NULL;
+	}
 	measuring = 1;
 	j->out = mmd_string_convert(j->src, j->ext, j->fmt, 0);
 	measuring = 0;
